@@ -43,7 +43,9 @@ FwdEdge(cfg, st, e) ==
       eft == CASE k = "FF" -> Max2(e0, st.eft[inp])
                [] k = "SF" -> Max2(e0, st.est[inp])
                [] OTHER    -> e0
-  IN IF est >= st.est[nxt]
+  \* on equal earliest start the larger earliest finish wins (order independent; the pinned
+  \* code took whichever predecessor the set yielded last - D20, repaired by a fix commit)
+  IN IF est > st.est[nxt] \/ (est = st.est[nxt] /\ eft > st.eft[nxt])
      THEN [st EXCEPT !.est[nxt] = est, !.eft[nxt] = eft]
      ELSE st
 
@@ -59,8 +61,7 @@ PertForward(cfg, st) ==
   LET T0 == st.time * cfg.Q
       heads == { t \in Tasks(cfg) : Len(InEdges(cfg, t)) = 0 }
       st1 == [st EXCEPT !.est = [t \in Tasks(cfg) |-> T0],
-                        !.eft = [t \in Tasks(cfg) |->
-                                   IF t \in heads THEN T0 + st.rem[t] ELSE st.eft[t]]]
+                        !.eft = [t \in Tasks(cfg) |-> T0 + st.rem[t]]]
   IN FwdWaves(cfg, st1, heads)
 
 \* one backward relaxation along edge e = <<prv, out, kind>> (out is being visited).
@@ -75,7 +76,8 @@ BwdEdge(cfg, st, e) ==
       lst == CASE k = "FS" -> lftFS - st.rem[prv]
                [] k = "SF" -> IF st.lft[out] < lstX THEN st.lft[out] ELSE lstX
                [] OTHER    -> lstX
-  IN IF st.lft[prv] < 0 \/ st.lft[prv] >= lft
+  \* on equal latest finish the smaller latest start wins (order independent)
+  IN IF st.lft[prv] < 0 \/ st.lft[prv] > lft \/ (st.lft[prv] = lft /\ lst < st.lst[prv])
      THEN [st EXCEPT !.lst[prv] = lst, !.lft[prv] = lft]
      ELSE st
 
